@@ -162,6 +162,20 @@ func verifC08(cols, maxRows, textLen int, mode int) {
 			}
 			return ""
 		}
+		if mode == 3 {
+			// arbitrary bytes (also invalid UTF-8) in the first text, no CR
+			// (each byte one of: ASCII, pipe, LF, lead and continuation bytes of 2- and 3-byte sequences, 0xff)
+			if nText == 1 {
+				palette := []byte{'a', '|', '\n', 0xc3, 0xa9, 0xff, 0x80, 0xe4, 0xb8, 0x96}
+				n := vfChoice(name+".len", textLen+1)
+				b := make([]byte, n)
+				for i := range b {
+					b[i] = palette[vfChoice(vfName(name+".b", i), len(palette))]
+				}
+				return string(b)
+			}
+			return "x|y"
+		}
 		switch nText {
 		case 1:
 			return vfString(name, textLen, vfASCIInoCR)
@@ -220,7 +234,7 @@ func verifC08(cols, maxRows, textLen int, mode int) {
 	aligns := make([]int, ncols+1)
 	for i := 0; i <= ncols; i++ {
 		switch mode {
-		case 0:
+		case 0, 3:
 			aligns[i] = 0
 		case 1:
 			aligns[i] = vfChoice(vfName("align", i), 4)
@@ -302,6 +316,11 @@ func VerifC08_content() {
 	}
 }
 
+// arbitrary bytes, including invalid UTF-8, in one header or cell: they come back byte for byte
+func VerifC08_bytes() {
+	verifC08(1, 1, 2+vfTier(), 3)
+}
+
 // every assignment of {unset,left,right,centre} to column 0 and each column
 func VerifC08_alignment() {
 	verifC08(2, 2, 0, 1)
@@ -342,4 +361,54 @@ func VerifC08_afterfailure() {
 	vfAssert(errBad != nil, "failure-surfaces-as-error")
 	vfAssert(t.RenderTo(good) == nil, "render-after-failure-ok")
 	vfAssert(string(good.got) == ref, "render-after-failure-is-a-proper-table")
+}
+
+// VerifC08_rerender: the same wrapper rendered again after an alignment was set, changed or withdrawn
+// (column 0 or a column; widths unchanged) shows the current effective alignments in its delimiter row.
+func VerifC08_rerender() {
+	t := New()
+	t.AddHeaders("name", "n")
+	t.AddRowItems("alpha", 1)
+	a := []int{vfChoice("a0", 4), vfChoice("a1", 4), vfChoice("a2", 4)}
+	for i := range a {
+		vfSetAlign(t, i, a[i])
+	}
+	_, err := t.Render()
+	vfAssert(err == nil, "render-ok")
+	col := vfChoice("col", 3)
+	b := vfChoice("then", 4)
+	if b == 0 {
+		t.Column(col).SetProperty(align.PropertyType, nil)
+	} else {
+		vfSetAlign(t, col, b)
+	}
+	a[col] = b
+	if vfChoice("grow", 2) == 1 {
+		t.AddRowItems("be", 22) // no width changes
+	}
+	out, err2 := t.Render()
+	vfAssert(err2 == nil, "render-ok")
+	if err2 != nil {
+		return
+	}
+	lines, ok := vfSplitLines(out)
+	vfAssert(ok, "newline-terminated")
+	vfAssert(vfOr(!ok, len(lines) >= 3), "header-delimiter-and-one-line-per-row")
+	if !ok || len(lines) < 3 {
+		return
+	}
+	fields := vfSplitPipes(lines[1])
+	vfAssert(len(fields) == 4, "one-more-unescaped-pipe-than-columns")
+	if len(fields) != 4 {
+		return
+	}
+	for c := 1; c <= 2; c++ {
+		eff := a[c]
+		if eff == 0 {
+			eff = a[0]
+		}
+		vfCheckDelimiter(fields[c], eff)
+	}
+	fresh, err3 := Wrap(t.Table).Render()
+	vfAssert(vfAnd(err3 == nil, fresh == out), "rerender-equals-fresh-wrapper")
 }
